@@ -39,8 +39,23 @@ inductive Slot
   | dtext (t : Nat) | dpath (t : Nat)
 deriving DecidableEq, Repr
 
-/-- how numbers are printed: slot and two indices -/
-abbrev Nums := Slot → Nat → Nat → PyStr
+/-- a stable argsort (any sorting permutation gives the same document: equal keys have equal colours) -/
+def insertByKey (key : Nat → Int) (v : Nat) : List Nat → List Nat
+  | [] => [v]
+  | w :: ws => if key v ≤ key w then v :: w :: ws else w :: insertByKey key v ws
+
+def argsort (d : List Int) : List Nat :=
+  (List.range d.length).foldr (insertByKey (fun i => d.getD i 0)) []
+
+/-- what the drawing code takes from outside the model: how a number is printed at a slot (with two indices), and
+    which sorting permutation `np.argsort` returns (any permutation of the positions is allowed by the theorems; the
+    correspondence runs use the stable `argsort` above — equal keys have equal colours, so the masked document does not
+    depend on the choice) -/
+structure Nums where
+  tok : Slot → Nat → Nat → PyStr
+  argsort : List Int → List Nat := SkNet.Svg.argsort
+
+instance : CoeFun Nums (fun _ => Slot → Nat → Nat → PyStr) := ⟨Nums.tok⟩
 
 /-! ### templates -/
 
@@ -298,14 +313,6 @@ abbrev Entry := Nat × Nat × Rat
 def entryAt (es : List Entry) (i j : Nat) : Rat :=
   (es.filter fun e => e.1 = i ∧ e.2.1 = j).foldl (fun a e => a + e.2.2) 0
 
-/-- a stable argsort (any sorting permutation gives the same document: equal keys have equal colours) -/
-def insertByKey (key : Nat → Int) (v : Nat) : List Nat → List Nat
-  | [] => [v]
-  | w :: ws => if key v ≤ key w then v :: w :: ws else w :: insertByKey key v ws
-
-def argsort (d : List Int) : List Nat :=
-  (List.range d.length).foldr (insertByKey (fun i => d.getD i 0)) []
-
 structure EdgeColors where
   colors : List PyStr                       -- one per stored entry
   order : List Nat
@@ -344,19 +351,19 @@ def edgeColorArray (m : Nat) (data : List Int) (colors : List PyStr) (edgeColor 
     and the positions that receive a label colour are numbered in *that* matrix, while `edge_colors` and the COO
     arrays read by the caller are numbered over all stored entries — the model keeps the two numberings as the code
     does (they coincide when every stored weight is positive). -/
-def getEdgeColors (nRow nCol : Nat) (es : List Entry) (edgeLabels : List (Int × Int × Int)) (edgeColor : PyStr)
-    (lc : LabelColors) : Except PyErr EdgeColors :=
+def getEdgeColors (sort : List Int → List Nat) (nRow nCol : Nat) (es : List Entry)
+    (edgeLabels : List (Int × Int × Int)) (edgeColor : PyStr) (lc : LabelColors) : Except PyErr EdgeColors :=
   let posEs := es.filter fun e => e.2.2 > 0
   let data0 : List Int := posEs.map fun _ => -1
   if edgeLabels.isEmpty then
-    .ok ⟨edgeColorArray es.length data0 [] edgeColor, argsort data0, []⟩
+    .ok ⟨edgeColorArray es.length data0 [] edgeColor, sort data0, []⟩
   else
     match getLabelColors lc with
     | .error e => .error e
     | .ok colors =>
       match edgeLabels.foldlM (edgeLabelStep nRow nCol es posEs colors) ⟨data0, []⟩ with
       | .error e => .error e
-      | .ok st => .ok ⟨edgeColorArray es.length st.data colors edgeColor, argsort st.data, st.residual⟩
+      | .ok st => .ok ⟨edgeColorArray es.length st.data colors edgeColor, sort st.data, st.residual⟩
 
 /-! ### `visualize_graph` -/
 
@@ -489,7 +496,7 @@ def residEdges (ν : Nums) (directed : Bool) (pos : List (Rat × Rat)) (residual
 /-- the `if display_edges:` block of `visualize_graph`: the colours that get a marker definition, and the edges -/
 def graphEdgeParts (ν : Nums) (a : GraphArgs) (pos : List (Rat × Rat)) : Except PyErr (List PyStr × List Piece) :=
   if a.displayEdges then
-    match getEdgeColors (graphN a) (graphN a) (graphEs a) a.edgeLabels
+    match getEdgeColors ν.argsort (graphN a) (graphN a) (graphEs a) a.edgeLabels
         (defaultEdgeColor a.edgeColor a.names.isNone) a.labelColors with
     | .error e => .error e
     | .ok ec =>
@@ -589,7 +596,7 @@ def biresidEdges (ν : Nums) (residual : List (Nat × Nat × PyStr)) : List Piec
 /-- the `if display_edges:` block of `visualize_bigraph` -/
 def bigraphEdges (ν : Nums) (a : BigraphArgs) : Except PyErr (List Piece) :=
   if a.displayEdges then do
-    let ec ← getEdgeColors a.nRow a.nCol (bigraphEs a) a.edgeLabels
+    let ec ← getEdgeColors ν.argsort a.nRow a.nCol (bigraphEs a) a.edgeLabels
       (defaultEdgeColor a.edgeColor (a.namesRow.isNone && a.namesCol.isNone)) a.labelColors
     let stored ← bistoredEdges ν (bigraphEs a) ec
     pure (stored ++ biresidEdges ν ec.residual)
